@@ -12,8 +12,9 @@ RULE = (
     "cases: (a) every face-node table with <=2 faces (quick) / <=3 faces (thorough) over <=6 nodes, "
     "face sizes 3..5, all start corners and orientations, up to node relabelling (finite sub-space walked "
     "completely); (b) seeded random meshes (voronoi/delaunay/merged/polyhedra/patch/cubed-sphere, partial, "
-    "renumbered, start corners rotated, padding wider than needed) x first-access order of the five "
-    "observed attributes. Non-trivial = >=2 face sizes, or a shared edge, or padding not confined to the "
+    "renumbered, start corners rotated, padding wider than needed; table memory layout C / Fortran / transposed view / strided view) "
+    "x first-access order of the five observed attributes; (c) pairs of grids (same source, renumbered twin, other mesh) whose ten first "
+    "reads are interleaved in a random order (two-grid histories). Non-trivial = >=2 face sizes, or a shared edge, or padding not confined to the "
     "last rows. distinct = hash of the case descriptor."
 )
 ASSUMPTIONS = [
@@ -55,8 +56,15 @@ def cases(tier, seed):
         d = gen.random_mesh(rng, mf)
         yield {
             "kind": "mesh", "mesh": d, "extra_width": int(rng.choice([0, 0, 1, 3])),
-            "order": int(rng.integers(0, len(ORDERS))),
+            "order": int(rng.integers(0, len(ORDERS))), "layout": ux.LAYOUTS[int(rng.integers(0, 4))] if rng.random() < 0.5 else "C",
         }
+    # histories over two grids: the attributes of A and B are first read in an interleaved order
+    npair = 60 if tier == "quick" else 1200
+    for i in range(npair):
+        d = gen.random_mesh(rng, 80)
+        kind = ["renumbered_twin", "other_mesh", "same_source"][i % 3]
+        d2 = gen.random_mesh(rng, 80) if kind == "other_mesh" else d
+        yield {"kind": "pair", "mesh": d, "mesh2": d2, "pair_kind": kind, "rseed": int(rng.integers(0, 10**6)), "iseed": int(rng.integers(0, 10**6))}
 
 
 def _tiny_positions(n):
@@ -64,17 +72,18 @@ def _tiny_positions(n):
     return ref.unit(rng.normal(size=(n, 3)))
 
 
-def check_grid(ctx, grid, faces, n_node, width, closed, order, sig_base):
+def check_grid(ctx, grid, faces, n_node, width, closed, order, sig_base, obs=None):
     """Observe the five attributes in the given first-access order and compare with the model."""
-    obs = {}
-    for k in ORDERS[order]:
-        name = ATTRS[k]
-        try:
-            v = getattr(grid, name)
-            obs[name] = v
-        except Exception as e:  # an exception on a well-formed table is a violation
-            ctx.check("no_exception", False, dict(sig_base, attr=name, exc=__import__("uxmon.core", fromlist=["x"]).exc_sig(e)), {"exc": repr(e)})
-            return
+    if obs is None:
+        obs = {}
+        for k in ORDERS[order]:
+            name = ATTRS[k]
+            try:
+                v = getattr(grid, name)
+                obs[name] = v
+            except Exception as e:  # an exception on a well-formed table is a violation
+                ctx.check("no_exception", False, dict(sig_base, attr=name, exc=__import__("uxmon.core", fromlist=["x"]).exc_sig(e)), {"exc": repr(e)})
+                return
     ctx.check("no_exception", True)
     model_edges = ref.edge_set(faces)
     en = np.asarray(obs["edge_node_connectivity"].values)
@@ -153,12 +162,16 @@ def run_case(ctx, case):
             if t_i == 0 and case["lo"] % 500 == 0:
                 ctx.sample({"kind": "tiny", "faces": faces, "order": [ATTRS[k] for k in ORDERS[order]]})
         return
+    if case["kind"] == "pair":
+        return run_pair(ctx, case)
     m = gen.build(case["mesh"])
     width = max(len(f) for f in m.faces) + case["extra_width"]
-    g = ux.grid_from_mesh(m, width=width)
+    layout = case.get("layout", "C")
+    g = ux.grid_from_mesh(m, width=width, layout=layout)
     mixed = len({len(f) for f in m.faces}) > 1
     check_grid(ctx, g, m.faces, m.n_node, width, m.closed, case["order"],
-               {"kind": "mesh", "family": case["mesh"]["family"], "mixed": mixed, "closed": bool(m.closed), "extra_width": case["extra_width"] > 0})
+               {"kind": "mesh", "family": case["mesh"]["family"], "mixed": mixed, "closed": bool(m.closed), "extra_width": case["extra_width"] > 0, "layout": layout})
+    ctx.observe("layout_" + layout)
     if nontrivial(m.faces, width):
         ctx.mark_nontrivial()
     ctx.observe("meshes")
@@ -171,3 +184,43 @@ def run_case(ctx, case):
         if sizes[0] < max(sizes):
             ctx.observe("short_row_first")
     ctx.sample({"mesh": case["mesh"], "stats": ux.mesh_stats(m), "order": [ATTRS[k] for k in ORDERS[case["order"]]]})
+
+
+def run_pair(ctx, case):
+    """Two grids in one process; the first reads of their attributes are interleaved (a history over two grids).
+    Every attribute must describe its own grid's faces."""
+    from .. import core
+
+    a = gen.build(case["mesh"])
+    if case["pair_kind"] == "renumbered_twin":
+        b = gen.renumbered(a, case["rseed"])
+    elif case["pair_kind"] == "same_source":
+        b = a
+    else:
+        b = gen.build(case["mesh2"])
+    meshes = [a, b]
+    grids = [ux.grid_from_mesh(a), ux.grid_from_mesh(b)]
+    rng = np.random.default_rng(case["iseed"])
+    steps = [(gi, k) for gi in (0, 1) for k in range(len(ATTRS))]
+    rng.shuffle(steps)
+    obs = [{}, {}]
+    hist = []
+    for gi, k in steps:
+        name = ATTRS[k]
+        hist.append("%s.%s" % ("AB"[gi], name))
+        try:
+            obs[gi][name] = getattr(grids[gi], name)
+        except Exception as e:
+            ctx.check("no_exception", False, {"kind": "pair", "pair_kind": case["pair_kind"], "attr": name, "exc": core.exc_sig(e)}, {"exc": repr(e), "history": hist})
+            return
+    for gi in (0, 1):
+        m = meshes[gi]
+        width = max(len(f) for f in m.faces)
+        # snapshot values now: later reads on the other grid must not have altered them
+        check_grid(ctx, grids[gi], m.faces, m.n_node, width, m.closed, 0,
+                   {"kind": "pair", "pair_kind": case["pair_kind"], "grid": "AB"[gi], "mixed": len({len(f) for f in m.faces}) > 1}, obs=obs[gi])
+    ctx.mark_nontrivial()
+    ctx.observe("pairs")
+    ctx.observe("pair_" + case["pair_kind"])
+    if ctx.observed.get("pairs", 0) <= 2:
+        ctx.samples.append({"kind": "pair", "pair_kind": case["pair_kind"], "mesh": case["mesh"], "history": hist})
